@@ -1,11 +1,12 @@
 \* the repaired algorithm (header keeps its delimiter, groups keyed by printed width)
-\* on natural and %04d widths (quick tier; _big adds %05d and more numbers), the empty prefix and non-integer suffixes
+\* on natural and %04d widths (quick tier; _big adds %05d and more numbers), the empty prefix and footers that cannot be encoded
+\* (letters, sign, digits of other scripts as code points, superscript)
 SPECIFICATION Spec
 CONSTANTS
   Heads <- HeadsAll
-  Numbers <- NumsAll
+  Numbers <- NumsQuick
   Widths <- WidthsQuick
-  Extra <- ExtraAll
+  Extra <- ExtraQuick
   MaxIds = 3
   Variant = "keepwidth"
 INVARIANT TypeOK
